@@ -13,9 +13,15 @@
    a timer is activated once per interval, never before it is due,     timer_activation (the (n+1)-th activation since
    in order of due time                                                creation at clock c is the one due at c+(n+1)*iv;
                                                                        due <= sampled now; no live timer is due earlier)
+                                                                       + timer_wait_not_past_due (the loop never waits
+                                                                       beyond the due time of a live timer: no lateness
+                                                                       of its own making, so no catch-up bursts)
    after remove() returned the removed timer/client/listener/          no_callback_after_remove (also for the client
-   establisher never receives another callback (also from inside a     dropped by a null return of onAccepted/onConnected)
-   callback / with an event pending)                                   + buffered_events_within_interest, registered_objects_alive
+   establisher never receives another callback (also from inside a     dropped by a null return of onAccepted/onConnected
+   callback / with an event pending)                                   and for the client removed from inside the very
+                                                                       onAccepted/onConnected that announces it: EvDeferred)
+                                                                       + buffered_events_within_interest, registered_objects_alive,
+                                                                       pooled_clients_have_callback_objects
                                                                        (Poll::set/remove prune the buffered events)
    every dispatched event kind is one the socket is registered for     dispatch_kind_registered, connect_dispatch_registered
    a failed read or write is followed by onClosed                      failed_io_followed_by_onClosed, loop_send_failure_closes_at_once
@@ -35,11 +41,14 @@
      of the loop is its last action before run() returns.  That the loop reaches that wait is the termination question above.
    * equal due times: activations are in order of due time; that timers with EQUAL due times fire in insertion order is
      validated by the correspondence check only.
-   * a client removed from inside the very onAccepted/onConnected that announces it, for which that callback nevertheless
-     returns a callback object, is kept alive by the code and later gets onClosed; the model mirrors this, the monitor
-     counts the returned object as a re-adoption (EvDeferred is not EvRemoved).  *)
+   * the model mirrors the code after the repairs fixes/C14/01 (a client removed from inside the onAccepted/onConnected that
+     announces it is deleted when that callback returns, whatever it returns) and fixes/C14/02 (the poll time-out is computed
+     after the closing pass).  Without them no_callback_after_remove and timer_wait_not_past_due are false (witnesses in
+     corpus/C14/removed-inside-its-announcement.ops and timer-created-in-onclosed.ops).
+   * timer_wait_not_past_due is relative to the clock value the loop sampled at the start of the iteration: time spent inside
+     callbacks of that iteration is not accounted for (neither by the code nor by the clause).  *)
 From Coq Require Import ZArith List Bool.
-From ServerLoop Require Import ServerLoopSpec ServerLoopModel ServerLoopInv ServerLoopCplC ServerLoopDerived.
+From ServerLoop Require Import ServerLoopSpec ServerLoopModel ServerLoopInv ServerLoopCb ServerLoopCplC ServerLoopDerived.
 Import ListNotations.
 Local Open Scope Z_scope.
 
@@ -53,6 +62,12 @@ Theorem timer_activation : forall fuel ops later t due now earlier,
     forall t' c' iv' n', tinfo t' earlier = Some (c', iv', n') -> due <= c' + (n' + 1) * iv'.
 Proof. exact model_timer_activation. Qed.
 Print Assumptions timer_activation.
+
+Theorem timer_wait_not_past_due : forall fuel ops later t earlier,
+  trace (steps fuel init ops) = later ++ EvWait t :: earlier ->
+  forall t' c iv n, tinfo t' earlier = Some (c, iv, n) -> now_of earlier + t <= c + (n + 1) * iv.
+Proof. exact model_wait_not_past_due. Qed.
+Print Assumptions timer_wait_not_past_due.
 
 Theorem no_callback_after_remove : forall fuel ops later x earlier e,
   trace (steps fuel init ops) = later ++ x :: earlier -> gone e x = true ->
@@ -125,6 +140,11 @@ Print Assumptions eventual_dispatch_partial_head.
 Theorem structural_invariant_reachable : forall fuel ops, SInv (steps fuel init ops).
 Proof. exact SInv_reachable. Qed.
 Print Assumptions structural_invariant_reachable.
+
+Theorem pooled_clients_have_callback_objects : forall fuel ops j c,
+  In (j, c) (clients (steps fuel init ops)) -> c_cb c = true /\ c_rm c = false.
+Proof. exact pooled_clients_ready. Qed.
+Print Assumptions pooled_clients_have_callback_objects.
 
 (* ---------- non-vacuity: a concrete history whose log contains every kind of event the theorems speak about ---------- *)
 Definition nb (i o r h e : bool) := mkNb i o r h e.
